@@ -5372,11 +5372,27 @@ class Parameterized(metaclass=ParameterizedMetaclass):
                 w for attrs in private.watchers.values() for ws in attrs.values()
                 for w in ws if _is_foreign_method_watcher(w, self)
             ]
-            if foreign or private.dynamic_watchers:
+            # (watchers of Parameter attributes live on the instance-level
+            # Parameter objects)
+            slot_foreign = {
+                pname: pobj for pname, pobj in private.params.items()
+                if any(_is_foreign_method_watcher(w, self)
+                       for ws in pobj.watchers.values() for w in ws)
+            }
+            if foreign or private.dynamic_watchers or slot_foreign:
                 # the object's own watchers for dynamic dependencies are
                 # recreated by _update_deps in __setstate__
                 foreign += [w for ws in private.dynamic_watchers.values() for w in ws]
                 private = copy.copy(private)
+                if slot_foreign:
+                    private.params = dict(private.params)
+                    for pname, pobj in slot_foreign.items():
+                        pobj = copy.copy(pobj)
+                        pobj.watchers = {
+                            what: [w for w in ws if not _is_foreign_method_watcher(w, self)]
+                            for what, ws in pobj.watchers.items()
+                        }
+                        private.params[pname] = pobj
                 private.watchers = {
                     p: {attr: [w for w in ws if not any(w is f for f in foreign)]
                         for attr, ws in attrs.items()}
